@@ -691,6 +691,10 @@ class CommitHandler(processor.CommitHandler):
         # already exists. If it does, we need to delete it.
         if inv.has_id(dir_file_id):
             self.record_delete(dirname, ie)
+            # record_delete() forgets the directory entry cached above;
+            # without it the next item below dirname would create the
+            # directory a second time, with a fresh file-id.
+            self.directory_entries[dirname] = ie
         self.record_new(dirname, ie)
         return basename, ie.file_id
 
